@@ -36,6 +36,12 @@ type fakeS3 struct {
 	// withLen: GET responses carry ContentLength (and ETag) the way the real service does; without it
 	// only Body is filled in (what a chunked / transforming endpoint or a minimal S3Interface hands back)
 	withLen bool
+	// putCode: the PUT with this call index reads its whole body (the request went out) and then fails with
+	// this AWS error code - a throttled or timed-out request, as the SDK reports it; putCodeFrom/putCodeAll:
+	// every PUT from that call index on fails that way
+	putCode     map[int]string
+	putCodeFrom int
+	putCodeAll  string
 }
 
 var errFakeS3 = errors.New("verif: injected S3 error")
@@ -107,13 +113,22 @@ func (f *fakeS3) GetObjectWithContext(ctx aws.Context, in *s3.GetObjectInput, op
 }
 
 func (f *fakeS3) PutObjectWithContext(ctx aws.Context, in *s3.PutObjectInput, opts ...request.Option) (*s3.PutObjectOutput, error) {
-	_, fail := f.tick("PUT", aws.StringValue(in.Bucket), aws.StringValue(in.Key))
+	i, fail := f.tick("PUT", aws.StringValue(in.Bucket), aws.StringValue(in.Key))
 	if fail {
 		return nil, errFakeS3
 	}
 	b, err := io.ReadAll(in.Body)
 	if err != nil {
 		return nil, err
+	}
+	f.mu.Lock()
+	code := f.putCode[i]
+	if f.putCodeAll != "" && i >= f.putCodeFrom {
+		code = f.putCodeAll
+	}
+	f.mu.Unlock()
+	if code != "" {
+		return nil, awserr.NewRequestFailure(awserr.New(code, "verif: injected S3 failure after the body was sent", nil), 503, "verif-request")
 	}
 	f.mu.Lock()
 	f.objects[aws.StringValue(in.Bucket)+"\x00"+aws.StringValue(in.Key)] = b
@@ -316,6 +331,63 @@ func C18(run *report.Run) {
 									break
 								}
 							}
+						}
+					}
+				}
+			}
+		}
+	}
+	// S3 backend: a PUT that fails *after its body went out*, with the error codes the SDK reports for throttled
+	// and timed-out requests (and one that is not transient), once, twice, three times in a row, and for good.
+	// A backend may retry; what it may not do is report success for a node that cannot be read back: a Store
+	// that returns nil makes the name load with exactly the bytes, and while every PUT fails Store returns an error.
+	for _, b := range c18Backends(tmpBase) {
+		if b.bucket == "" {
+			continue
+		}
+		for _, code := range []string{"SlowDown", "ServiceUnavailable", "InternalError", "RequestTimeout", "RequestTimeTooSkewed", "AccessDenied"} {
+			for _, pn := range []string{"empty", "all256"} {
+				payload := payloads[pn]
+				for first := 0; first < 2; first++ { // the failing PUT is the first call, or follows a Load of the missing name
+					for k := 1; k <= 4; k++ { // k failing PUTs in a row; k == 4: every PUT fails
+						p, fs, cleanup := b.mk()
+						name := "qynm3BZ1XQBx66NJ69oiXRXk-RDLR0VJxH6Vy4XsxNY"
+						if first == 1 {
+							p.Load(ctx, name)
+						}
+						fs.mu.Lock()
+						if k == 4 {
+							fs.putCodeFrom, fs.putCodeAll = fs.n, code
+						} else {
+							fs.putCode = map[int]string{}
+							for j := 0; j < k; j++ {
+								fs.putCode[fs.n+j] = code
+							}
+						}
+						fs.mu.Unlock()
+						atomic.AddInt64(&st.faults, 1)
+						desc := fmt.Sprintf("name %q payload %s: %d PUT(s) in a row fail with %s after the body was read (4 = all)", name, pn, k, code)
+						for attempt := 0; attempt < 5; attempt++ {
+							serr := p.Store(ctx, name, payload)
+							got, lerr := p.Load(ctx, name)
+							if serr == nil {
+								if k == 4 {
+									report1(b, "s3-error-propagation|store-succeeds-while-every-PUT-fails", "Store returned nil although every PUT failed", fmt.Sprintf("attempt %d", attempt), desc)
+								} else if lerr != nil || !bytes.Equal(got, payload) {
+									report1(b, "s3-store-ok-but-not-loadable|after-failed-PUT", "a Store that returned nil (after a PUT failed once the body had been sent) left a name that does not load with those bytes", fmt.Sprintf("attempt %d: load err %v, %d bytes want %d", attempt, lerr, len(got), len(payload)), desc)
+								}
+								break
+							}
+							if lerr == nil && !bytes.Equal(got, payload) {
+								report1(b, "s3-partial-object|after-failed-PUT", "after a failed Store the name loads with other bytes", fmt.Sprintf("attempt %d: %d bytes want %d", attempt, len(got), len(payload)), desc)
+								break
+							}
+							if k < 4 && attempt == 4 {
+								report1(b, "s3-store-never-recovers|after-failed-PUT", "Store still fails after the backend has recovered", serr.Error(), desc)
+							}
+						}
+						if cleanup != nil {
+							cleanup()
 						}
 					}
 				}
